@@ -695,6 +695,27 @@ Proof.
     rewrite Hx in W. destruct (so_ok (o_sum o)); [discriminate | reflexivity].
 Qed.
 
+
+(* ================= reports are made on the way ================= *)
+Section Online.
+  Variable M : Type.
+  Variable CT : Type.
+  Variable parse : option M -> CT.
+  (* self._inprogress after a prefix of the stream *)
+  Definition tbl_after (tbl : list (key * rcd CT)) (es : list (event M)) : list (key * rcd CT) :=
+    fold_left (fun t e => fst (step parse t e)) es tbl.
+  (* what has been handed to on_test when a prefix has been consumed does not depend on what follows, and
+     stopTestRun only adds the flush of what is still in progress *)
+  Theorem consume_online : forall (a b : list (event M)) tbl stop,
+    consume_from parse stop tbl (a ++ b)
+    = consume_from parse false tbl a ++ consume_from parse stop (tbl_after tbl a) b.
+  Proof.
+    induction a as [|e a IH]; intros b tbl stop; [reflexivity|].
+    cbn [app consume_from tbl_after fold_left]. rewrite IH, app_assoc. reflexivity.
+  Qed.
+End Online.
+Arguments tbl_after {M CT}.
+
 Arguments has_id {M}. Arguments has_key {M}. Arguments of_key {M}. Arguments seg_ok {M}.
 
 (* ================= statements in the form Props/C10.v gives them ================= *)
